@@ -1105,6 +1105,7 @@ class mulgrid(object):
             self.connectionlist[-1].node = self.connection_nodes(con.column)
             for col in self.connectionlist[-1].column:
                 col.connection.add(self.connectionlist[-1])
+            for i in range(2): con.column[i].neighbour.add(con.column[not i])
 
     def connection_nodes(self, cols):
         """Identifies nodes on the connection between a pair of two columns.
@@ -1126,6 +1127,10 @@ class mulgrid(object):
         """Deletes a connection from the geometry."""
         con = self.connection[colnames]
         for col in con.column: col.connection.remove(con)
+        col1, col2 = con.column
+        if not any([col2 in c.column for c in col1.connection]):
+            col1.neighbour.discard(col2)
+            col2.neighbour.discard(col1)
         del self.connection[colnames]
         self.connectionlist.remove(con)
 
